@@ -36,3 +36,47 @@ PROPS["C19"] = dict(
     technique="differential testing against an executable reference model (Vec<bool>), exhaustive offset x length grid, Miri UB interpreter",
     assumptions=["word closures passed to the *_op helpers are bit-local functions, as their documentation requires"],
 )
+
+PROPS["C09"] = dict(
+    quick=[st("quick", 90)],
+    thorough=[st("thorough", 900), st("quick", 600, variant="asan-core"), st("tiny", 1500, variant="miri", hard_timeout=3000)],
+    floor=dict(quick=500, thorough=2000),
+    rule="near-valid layouts: a valid array of a random (nested) type in a random physical realisation, one node of its ArrayData tree mutated once (element of an offsets/keys/type-ids/dense-offsets/views/run-ends buffer rewritten to a boundary value, buffer shortened/misaligned/removed/added, len/offset moved incl. overflow, validity shortened or added, child removed/duplicated/retyped/shortened); every validating entry point (ArrayData::try_new, ArrayDataBuilder::build with and without align_buffers, validate_full on unchecked data and on the whole tree, typed try_new constructors, RecordBatch::try_new[_with_options]) is called; accepted => independent validator accepts and accessor exercise completes; class = (node type class, mutation kind, accepted|rejected)",
+    level="exploration",
+    level_text="Runtime differential check of arrow-rs' validating constructors against an independent validator written from the columnar specification, on generated near-valid layouts (quick 60k, thorough 2M + the same workload under ASan and a reduced one under Miri so that an accepted-but-malformed layout shows up as an out-of-bounds report in the accessor exercise).",
+    level_note="Trusts the independent validator (vcore/src/validate.rs), which is deliberately lenient where the spec is silent, so it can only miss. Only single mutations of valid layouts are explored.",
+    technique="differential validation against an independent spec validator on mutated layouts; ASan and Miri on the accessor exercise",
+)
+
+PROPS["C10"] = dict(
+    quick=[st("quick", 75)],
+    thorough=[st("thorough", 900)],
+    floor=dict(quick=300, thorough=1000),
+    rule="arrays of every sortable type (incl. dictionary, run-end, view, fixed-size binary, decimal, interval, nested list/struct) with NaNs of both signs, signed zeros, nulls and duplicates in random physical layouts; sections cmp (make_comparator: reflexive, antisymmetric, transitive, Equal <=> logical equality, equals a reference order on the value model), sort/sort_limit/lexsort (permutation, non-decreasing under the real comparator, omitted rows >= last kept), rank, partition, comparison kernels x {array,scalar} x encodings, in_list; class = (section, type class, sort options, encoding/mode, outcome)",
+    level="exploration",
+    level_text="Runtime oracle checks of the order-related kernels against (a) the algebraic laws of a total preorder evaluated on all pairs/triples of small arrays and (b) an independent reference order on the logical value model; quick ~300k cases, thorough ~10 min/shard.",
+    level_note="Trusts the reference order in c10.rs (IEEE totalOrder, byte-lexicographic, element-wise nested rule with nulls per options). Tie order and result layout are not asserted; nested-type kernel rejections are rejections.",
+    technique="property-based runtime monitoring: algebraic-law oracle + reference-model differential on generated arrays",
+)
+
+PROPS["C11"] = dict(
+    quick=[st("quick", 75)],
+    thorough=[st("thorough", 900), st("tiny", 1500, variant="miri", hard_timeout=3000)],
+    floor=dict(quick=300, thorough=1000),
+    rule="row converters over 1-5 fields of every supported type (nested struct/list/list-view/fixed-size-list/map/union/dictionary/run-end) with all four SortOptions per field; two tables in different physical layouts converted in one call and appended in chunks; for all row pairs across conversions: byte order == reference tuple order == make_comparator tuple order, byte-equal <=> logically equal, Eq/Ord/Hash agree; decode of all rows / selections / parser / binary round trip equals the inputs; variable-length values of every length 0..=70 and 95..=161 with 0x00/0xFF; class = (section, field type classes, options, outcome)",
+    level="exploration",
+    level_text="Runtime oracle check of arrow-row: order preservation and injectivity on all row pairs of generated tables against an independent reference order and against make_comparator, invertibility by decoding every selection; thorough adds a reduced Miri run of the unsafe-heavy decode path.",
+    level_note="Trusts the reference order shared with C10. Row byte encoding itself, rows from different converters, and decoded dictionary types are not asserted.",
+    technique="property-based runtime monitoring: reference-model differential over all row pairs, round-trip oracle, Miri",
+)
+
+PROPS["C20"] = dict(
+    quick=[st("quick", 75)],
+    thorough=[st("thorough", 900)],
+    floor=dict(quick=300, thorough=1000),
+    rule="like/nlike/ilike/nilike/starts_with/ends_with/contains with every LIKE pattern of length <=4 (thorough <=5) over {% _ \\ a A e-acute .} against all strings of length <=4 over an 11-symbol alphabet mixing ASCII, multi-byte, combining, case-varying, newline and metacharacters, in Utf8/LargeUtf8/Utf8View/dictionary encodings, scalar and array patterns; random longer haystacks; regexp_is_match(_scalar) vs the regex crate row by row; substring / substring_by_char with negative and out-of-range start/length; length, bit_length, concat_elements; model = naive char-level matcher with case folding decided by the regex engine; class = (section, op, encoding, pattern-form, outcome)",
+    level="exploration",
+    level_text="Runtime differential check of arrow-string against a naive Unicode-scalar-value model; exhaustive over all short patterns x short strings (quick: time-boxed share, thorough: complete), sampled for long inputs.",
+    level_note="Trusts the naive matcher (cross-checked against a second backtracking matcher every case) and the regex crate for single-character case folding as the property defines it.",
+    technique="differential testing against an executable reference model, exhaustive short-pattern enumeration",
+)
